@@ -61,6 +61,7 @@ class VFunc(SV):
     qual: str = '<lambda>'
     self_sv: Any = None             # bound receiver for methods
     cls: Optional[str] = None
+    frame: Any = None               # id of the defining function activation (closures see its live variables)
 
 
 @dataclass(frozen=True)
